@@ -70,6 +70,12 @@ fn pattern_bit(p: usize, i: usize) -> bool {
             let b = ((i / 8) % 251) as u8;
             (b >> (7 - i % 8)) & 1 == 1
         }
+        3 => {
+            // bytes 0x70, 0x71, ...: reaches the characters that are special to the textual formats (`|`, `}`, `~`,
+            // DEL, then the high half) within the first few bytes
+            let b = (0x70 + (i / 8)) as u8;
+            (b >> (7 - i % 8)) & 1 == 1
+        }
         _ => {
             let x = (i as u32 + 1).wrapping_mul(2654435761);
             ((x >> 13) ^ (x >> 21) ^ (x >> 29)) & 1 == 1
@@ -833,11 +839,11 @@ pub fn run(ctx: &Ctx) -> Report {
         }
     };
 
-    // 1. single block: every length x 3 contents x 4 emission styles
+    // 1. single block: every length x 4 contents x 4 emission styles
     let lens = lengths(ctx.thorough);
     let mut singles = vec![];
     for l in &lens {
-        for p in 0..3 {
+        for p in 0..4 {
             for style in 0..4 {
                 singles.push((*l, p, style));
             }
